@@ -7,6 +7,7 @@ package symex
 
 import (
 	"fmt"
+	"go/types"
 	"math/big"
 )
 
@@ -44,8 +45,25 @@ func bigToValue(p *value, b *big.Int) {
 
 func init() {
 	stubs["math/big.NewInt"] = func(fr *frame, args []value) value {
+		i := fr.i
 		v := zero(mustDeref(fr.fn.Signature.Results().At(0).Type()))
-		bigToValue(&v, big.NewInt(fr.i.concreteInt(args[0])))
+		if sv, ok := args[0].(symv); ok {
+			// symbolic int64: fork on sign and zero-ness only; the magnitude
+			// stays one symbolic word
+			s := v.(structure)
+			neg := i.decide(i.cx.Slt(sv.t, i.cx.BV(0, 64)))
+			if !neg && i.decide(i.cx.Eq(sv.t, i.cx.BV(0, 64))) {
+				return &v
+			}
+			mag := sv.t
+			if neg {
+				mag = i.cx.Neg(sv.t)
+			}
+			s[0] = neg
+			s[1] = []value{fromTerm(mag, types.Uint)}
+			return &v
+		}
+		bigToValue(&v, big.NewInt(i.concreteInt(args[0])))
 		return &v
 	}
 	un := func(f func(z, x *big.Int)) handler {
